@@ -213,14 +213,14 @@ func checkLapm(c lapmCase) *vk.Failure {
 }
 
 func TestPerm(t *testing.T) {
-	vk.Run(t, "laswp", vk.Opts{Quick: 400, Thorough: 20000, NoCrumb: true}, func(t *rapid.T) swpCase {
+	vk.Run(t, "laswp", vk.Opts{Quick: 400, Thorough: 12000, NoCrumb: true}, func(t *rapid.T) swpCase {
 		rows := rapid.IntRange(0, 40).Draw(t, "rows")
 		return swpCase{Rows: rows, N: rapid.IntRange(0, 20).Draw(t, "n"), PadA: vk.Pad(t, "padA"),
 			K1: rapid.IntRange(0, 40).Draw(t, "k1"), K2: rapid.IntRange(0, 40).Draw(t, "k2"),
 			Reverse: rapid.Bool().Draw(t, "reverse"), Fixed: rapid.SampledFrom([]int{0, 30, 90}).Draw(t, "fixed"),
 			Seed: vk.SeedGen(t, "seed")}
 	}, finish(checkSwp))
-	vk.Run(t, "lapm", vk.Opts{Quick: 400, Thorough: 20000, NoCrumb: true}, func(t *rapid.T) lapmCase {
+	vk.Run(t, "lapm", vk.Opts{Quick: 400, Thorough: 12000, NoCrumb: true}, func(t *rapid.T) lapmCase {
 		return lapmCase{M: rapid.IntRange(0, 30).Draw(t, "m"), N: rapid.IntRange(0, 30).Draw(t, "n"), PadX: vk.Pad(t, "padX"),
 			Rows: rapid.Bool().Draw(t, "rows"), Forward: rapid.Bool().Draw(t, "forward"),
 			Kind: rapid.IntRange(0, 4).Draw(t, "kind"), Seed: vk.SeedGen(t, "seed")}
